@@ -72,7 +72,7 @@ func c13build(kind int) *c13archive {
 			specs = append(specs, spec{"dir", true, 0})
 		}
 	case kind%3 == 0:
-		specs = []spec{{"d", true, 0}, {"d/small1", false, 100}, {"empty", false, 0}, {"d/mid", false, 2000}, {"big", false, 200 << 10}, {"d/sub/after", false, 700}, {"last", false, 1500}}
+		specs = []spec{{"d", true, 0}, {"d/small1", false, 100}, {"empty", false, 0}, {"d/mid", false, 2000}, {"big", false, 200 << 10}, {"d/sub/after", false, 700}, {".last", false, 90}, {"last", false, 1500}, {"..d", false, 40}}
 	case kind%3 == 1:
 		specs = []spec{{"x", false, 513}, {"y/z/deep", false, 1024}, {"y", true, 0}, {"big1", false, 160 << 10}, {"w", false, 1}, {"big2", false, 300 << 10}, {"tail", false, 40}}
 	default:
@@ -234,6 +234,8 @@ type faultDest struct {
 	// commitOnClose: what is written becomes part of the file when the handle is closed (a write-behind / object store),
 	// and Close takes a moment
 	commitOnClose bool
+	// directories whose Mkdir or Chmod was refused
+	failedDirs map[string]bool
 }
 
 func (d *faultDest) call(site string) error {
@@ -253,12 +255,23 @@ func (d *faultDest) call(site string) error {
 func (d *faultDest) Open(name string) (hackpadfs.File, error) { return d.inner.Open(name) }
 func (d *faultDest) Mkdir(name string, perm hackpadfs.FileMode) error {
 	if err := d.call("Mkdir"); err != nil {
+		d.noteFailedDir(name)
 		return &hackpadfs.PathError{Op: "mkdir", Path: name, Err: err}
 	}
 	return d.inner.Mkdir(name, perm)
 }
+func (d *faultDest) noteFailedDir(name string) {
+	d.mu.Lock()
+	if d.failedDirs == nil {
+		d.failedDirs = map[string]bool{}
+	}
+	d.failedDirs[name] = true
+	d.mu.Unlock()
+}
+
 func (d *faultDest) Chmod(name string, mode hackpadfs.FileMode) error {
 	if err := d.call("Chmod"); err != nil {
+		d.noteFailedDir(name)
 		return &hackpadfs.PathError{Op: "chmod", Path: name, Err: err}
 	}
 	return d.inner.Chmod(name, mode)
@@ -606,6 +619,14 @@ func c13drive(a *c13archive, g *gatedReader, dest *faultDest, ctx context.Contex
 	for _, n := range names {
 		o := &c13open{name: n, started: -1}
 		f, err := t.Open(n)
+		if err == nil && dest != nil && isDir[n] {
+			dest.mu.Lock()
+			refused := dest.failedDirs[n]
+			dest.mu.Unlock()
+			if refused {
+				res.Violate(sigBase+"|after|directory-opened-although-its-creation-failed", fmt.Sprintf("the destination refused to create %q or to set its mode, yet Open(%q) succeeds after unpacking (UnarchiveErr: %v)", n, n, t.UnarchiveErr()), wit)
+			}
+		}
 		if err == nil {
 			b, rerr := io.ReadAll(f)
 			_ = f.Close()
